@@ -1196,7 +1196,10 @@ func (c *StructConverter) To(obj Object) (interface{}, error) {
 		value := c.goType.New()
 		// Get the underlying struct so that we can set its fields.
 		structValue := value.Elem()
-		for k, value := range obj.items {
+		// (in the order of the keys: which of two unfit values is reported
+		// must not depend on the iteration order of the map)
+		for _, k := range obj.SortedKeys() {
+			value := obj.items[k]
 			// If the struct has a field with the same name as a key, set it.
 			if f := structValue.FieldByName(k); f.CanSet() {
 				if attr, ok := c.goType.GetAttribute(k); ok {
